@@ -13,4 +13,5 @@ def build(tier):
     # C06.d an exception while processing a file leaves document(): nothing is written or printed for that file
     for (sk, fix) in ((('S2q' if quick else 'S2'), dict(out_i=0)), ('S1', dict(out_i=0)), ('S3', dict(out_i=1))):
         obs.append(trees.tree_ob('C06.d', sk, 'fail', dict(fix, sep2=False, ext_t=False, ext_m=False, has_prefix=False, excl_root=False, auto_ex=False), fixrev=True, fixexcl=quick, timeout=400 if quick else 1800))
+    obs.append(e2obs.ob_second_opinion("C06", D))      # after all other z3 obligations of this run (they run in list order)
     return dict(obligations=obs, explanation="x", assumptions=[])
